@@ -20,6 +20,41 @@ func execUtf8(args []string) string {
 	case "bufs":
 		op, _ := strconv.Atoi(args[2])
 		return b2s(gws.VerifCheckEncodingBuffers(args[1] == "1", uint8(op), unhxList(args[3])))
+	case "tablesplit":
+		// every byte string of length n, under every 2-way split and the all-singletons split, through the real
+		// slice-list gate; the digest covers (string, split) pairs in a fixed order
+		n, _ := strconv.Atoi(args[1])
+		var h uint64 = 14695981039346656037
+		count := 0
+		buf := make([]byte, n)
+		var rec func(i int)
+		rec = func(i int) {
+			if i == n {
+				add := func(parts [][]byte) {
+					var b byte
+					if gws.VerifCheckEncodingBuffers(true, 1, parts) {
+						b = 1
+						count++
+					}
+					h = (h ^ uint64(b)) * 1099511628211
+				}
+				for cut := 0; cut <= n; cut++ {
+					add([][]byte{buf[:cut], buf[cut:]})
+				}
+				singles := make([][]byte, n)
+				for j := 0; j < n; j++ {
+					singles[j] = buf[j : j+1]
+				}
+				add(singles)
+				return
+			}
+			for x := 0; x < 256; x++ {
+				buf[i] = byte(x)
+				rec(i + 1)
+			}
+		}
+		rec(0)
+		return fmt.Sprintf("%d %d", h, count)
 	case "table":
 		// every byte string of length n in lexicographic order through the real single-slice gate
 		n, _ := strconv.Atoi(args[1])
@@ -68,6 +103,9 @@ func splits(s []byte) [][][]byte {
 func genUtf8(g *Gen) {
 	for n := 0; n <= 3; n++ {
 		g.Emit("utf8 table %d", n)
+	}
+	for n := 1; n <= 3; n++ {
+		g.Emit("utf8 tablesplit %d", n)
 	}
 	for _, s := range utf8Boundary() {
 		for _, en := range []string{"1", "0"} {
